@@ -22,7 +22,7 @@ class QuitDomain(Domain):
     def call(self, node, fval, args, kwargs, state):
         name = call_name(node)
         if name == "self.client_pool.destroy":
-            return [("ok", NONE, state.set("destroyed", state.get("destroyed", 0) + 1))]
+            return [("ok", NONE, state.set("#destroyed", state.get("#destroyed", 0) + 1))]
         if name == "self.client_pool.get_and_release":
             return [("ok", TOP, state)]
         return [("ok", TOP, state), ("exc", Exc(ORD, None, node.lineno), state)]
@@ -43,8 +43,8 @@ def run(chk):
         m = pooled.methods[name]
         brs = set()
         for r in runs:
-            if r.state.get("calls", ()) or r.state.get("brackets", ()):
-                brs |= set(r.state.get("brackets", ()))
+            if r.state.get("#calls", ()) or r.state.get("#brackets", ()):
+                brs |= set(r.state.get("#brackets", ()))
         if not brs:
             r1.fail("PooledClient.%s:no-bracket" % name, "PooledClient.%s never enters the pool bracket" % name, fn=m)
             continue
@@ -108,6 +108,10 @@ def run(chk):
     from . import rules_C01, report
 
     report.include_rules(chk, r3, rules_C01, ("C01.R1",), "a connection on which a call failed is closed by the inner client itself, whatever the pool then does with the client object")
+    # "discarded" means closed: destroy() -> after_remove -> Client.close, which must close the socket on every path
+    from . import rules_C06
+
+    report.include_rules(chk, r3, rules_C06, ("C06.R6",), "discarding a failed connection closes its socket: Client.close closes the socket and resets self.sock on every path, whatever the socket's state")
 
     # ---------------- R4/R5 on ObjectPool.get and release
     fields, locks = poolpaths.guarded_fields(prog)
@@ -235,11 +239,11 @@ def run(chk):
     r6 = chk.rule("C09.R6", "PooledClient.quit destroys its client explicitly on every exit of the bracket body")
     q = prog.method(pooled, "quit")
     dq = QuitDomain(prog, q)
-    outs = Interp(dq, q.node, prog).run(Env({"destroyed": 0}))
+    outs = Interp(dq, q.node, prog).run(Env({"#destroyed": 0}))
     n_q = 0
     for kind in ("ret", "exc"):
         for s, v, t in outs.of(kind):
             n_q += 1
-            r6.expect(s.get("destroyed") == 1, "quit(): %s exit passes client_pool.destroy once" % kind, "PooledClient.quit:%s-exit-without-destroy" % kind, "PooledClient.quit can exit (%s) having called client_pool.destroy %d times: a connection the server is closing stays in the pool" % (kind, s.get("destroyed")), fn=q, witness=fmt_trace(t))
+            r6.expect(s.get("#destroyed") == 1, "quit(): %s exit passes client_pool.destroy once" % kind, "PooledClient.quit:%s-exit-without-destroy" % kind, "PooledClient.quit can exit (%s) having called client_pool.destroy %d times: a connection the server is closing stays in the pool" % (kind, s.get("#destroyed")), fn=q, witness=fmt_trace(t))
     r6.floor("exits of PooledClient.quit", n_q, 2)
     chk.assume("a connection on which a call failed is closed by the inner client itself (C01.R1); the pool then discards the client object")
